@@ -45,9 +45,13 @@ def generate(rng, tier, index):
     else:
         triples = gen.gen_graph(rng, n_nodes=n_nodes, n_classes=rng.randint(1, 3), n_props=rng.randint(1, 5), bnodes=bn,
                                 density=rng.choice([0.4, 0.6, 0.9]))
+    tp = gen.CUSTOM_TYPE if rng.random() < 0.12 else gen.RDF_TYPE
+    triples = gen.retype(gen.ensure_class(triples), tp)
     family = "store" if rng.random() < 0.5 else "document"
-    target = gen.gen_target(rng, triples, allow_shape_map=False)
+    target = gen.gen_target(rng, triples, allow_shape_map=False, type_prop=tp)
     options = gen.gen_options(rng, allow_inverse=True)
+    if tp != gen.RDF_TYPE:
+        options["instantiation_property"] = tp
     if rng.random() < 0.15:
         options["detect_minimal_iri"] = True
     labels = sorted({t[1] for tr in triples for t in (tr[0], tr[2]) if t[0] == "b"})
@@ -197,8 +201,9 @@ def extra_scenarios(tier, base):
         k = rng.choice([4, 5]) if tier == "quick" else rng.choice([4, 5, 6, 6])
         g = scen["graph"]
         # keep at least one typing triple
-        typing = [t for t in g if t[1][1] == gen.RDF_TYPE]
-        rest = [t for t in g if t[1][1] != gen.RDF_TYPE]
+        tpx = scen["options"].get("instantiation_property", gen.RDF_TYPE)
+        typing = [t for t in g if t[1][1] == tpx]
+        rest = [t for t in g if t[1][1] != tpx]
         rng.shuffle(typing)
         rng.shuffle(rest)
         g = sorted((typing[:max(1, k // 2)] + rest)[:k], key=repr)
